@@ -11,6 +11,7 @@ import (
 	"go/ast"
 	"go/parser"
 	"go/printer"
+	"go/scanner"
 	"go/token"
 	"os"
 	"path/filepath"
@@ -191,4 +192,107 @@ func WriteIfChanged(path, content string) error {
 		return err
 	}
 	return os.Rename(tmp, path)
+}
+
+// Canon prints a declaration (or any node) with every locally declared identifier — parameters, named results,
+// := / var / range / type-switch bindings, function-literal parameters — renamed to v1, v2, … in order of first
+// appearance, `var x = e` written as `x := e`, and white space collapsed. Two bodies that differ only in the names of
+// locals have the same canonical text, so exact-shape facts do not alarm on a rename.
+func (f *File) Canon(n ast.Node) string {
+	if n == nil {
+		return ""
+	}
+	locals := map[string]bool{}
+	addFields := func(fl *ast.FieldList) {
+		if fl == nil {
+			return
+		}
+		for _, fd := range fl.List {
+			for _, id := range fd.Names {
+				locals[id.Name] = true
+			}
+		}
+	}
+	ast.Inspect(n, func(x ast.Node) bool {
+		switch s := x.(type) {
+		case *ast.FuncDecl:
+			addFields(s.Recv)
+			addFields(s.Type.Params)
+			addFields(s.Type.Results)
+		case *ast.FuncLit:
+			addFields(s.Type.Params)
+			addFields(s.Type.Results)
+		case *ast.AssignStmt:
+			if s.Tok == token.DEFINE {
+				for _, l := range s.Lhs {
+					if id, ok := l.(*ast.Ident); ok {
+						locals[id.Name] = true
+					}
+				}
+			}
+		case *ast.ValueSpec:
+			for _, id := range s.Names {
+				locals[id.Name] = true
+			}
+		case *ast.RangeStmt:
+			if s.Tok == token.DEFINE {
+				for _, e := range []ast.Expr{s.Key, s.Value} {
+					if id, ok := e.(*ast.Ident); ok {
+						locals[id.Name] = true
+					}
+				}
+			}
+		}
+		return true
+	})
+	delete(locals, "_")
+	var b bytes.Buffer
+	_ = printer.Fprint(&b, f.Fset, n)
+	src := b.Bytes()
+	var sc scanner.Scanner
+	fs := token.NewFileSet()
+	file := fs.AddFile("", fs.Base(), len(src))
+	sc.Init(file, src, nil, 0)
+	names := map[string]string{}
+	var out []string
+	prev := token.ILLEGAL
+	for {
+		_, tok, lit := sc.Scan()
+		if tok == token.EOF {
+			break
+		}
+		switch {
+		case tok == token.SEMICOLON && lit == "\n":
+			out = append(out, ";")
+		case tok == token.IDENT && locals[lit] && prev != token.PERIOD:
+			if _, ok := names[lit]; !ok {
+				names[lit] = fmt.Sprintf("v%d", len(names)+1)
+			}
+			out = append(out, names[lit])
+		case lit != "":
+			out = append(out, lit)
+		default:
+			out = append(out, tok.String())
+		}
+		prev = tok
+	}
+	s := strings.Join(out, " ")
+	// `var x = e` and `x := e` are the same declaration
+	s = regexp.MustCompile(`var (v\d+) = `).ReplaceAllString(s, "$1 := ")
+	return s
+}
+
+// CanonText canonicalises a source fragment given as text (a function declaration or a statement list wrapped by the
+// caller in `func _() { … }`), for writing expectations next to the extractor.
+func CanonText(src string) (string, error) {
+	fset := token.NewFileSet()
+	f, err := parser.ParseFile(fset, "x.go", "package p\n"+src, parser.SkipObjectResolution)
+	if err != nil {
+		return "", err
+	}
+	file := &File{Fset: fset, AST: f}
+	if len(f.Decls) == 0 {
+		return "", fmt.Errorf("no declaration")
+	}
+	return file.Canon(f.Decls[len(f.Decls)-1]), nil
 }
